@@ -12,17 +12,16 @@ Local Open Scope N_scope.
 
 Section Run.
 Variable cap : nat.
+Variable ep : N.
 Variable lam : fev -> N.
 Variable vals : list (N * N).
 Hypothesis Hvals : vals_ok vals.
-Variable K : N.
 
 Notation ws := (map snd vals).
 Notation nv := (length vals).
 Notation q := (ElectionSpec.quorum_of ws).
 Notation fcn := (fc_n ws q).
-Notation ae := (to_aevent lam vals).
-Notation Sim := (Sim lam vals K).
+Notation ae := (to_aevent ep lam vals).
 Notation decideT T f := (decide node nd_id nd_cr nd_fr nd_spf fcn ws q (canon_order vals) T f (max_frame node nd_fr T)).
 
 (* the reference's verdict on an accepted event carries the highest allowed frame *)
@@ -44,67 +43,6 @@ Proof.
   pose proof (add_event_incl T e) as H1. destruct (add_event vals T e) as [T1 r]. cbn [fst] in H1.
   pose proof (IH T1) as H2. destruct (add_events vals T1 D) as [T2 rs]. cbn [fst] in *.
   intros x Hx. apply H2, H1, Hx.
-Qed.
-
-(* ---------- the run ---------- *)
-Lemma run_sim : forall D i T Dr B, Sim i T Dr B -> codes_ok (snd (add_events vals T D)) ->
-  (forall e, In e D -> id_fresh K (eid (fe e))) -> few_forkers vals (fst (add_events vals T D)) ->
-  l_ctr (i_st i) + N.of_nat (length D) < 2 ^ 192 -> l_ctr (i_st i) + N.of_nat (length D) <= K ->
-  exists i' B', render (run cap [] sample i (abft_ops lam vals D)) = (snd (add_events vals T D), B') /\
-    Sim i' (fst (add_events vals T D)) (rev D ++ Dr) (B ++ B').
-Proof.
-  induction D as [|e D IH]; intros i T Dr B HS Hc Hf Hff Hctr HK.
-  - exists i, []. cbn. rewrite app_nil_r. split; [reflexivity | exact HS].
-  - cbn [add_events] in *. destruct (add_event vals T e) as [T1 r] eqn:AE.
-    pose proof (add_events_incl D T1) as Inc.
-    destruct (add_events vals T1 D) as [T2 rs] eqn:AEs. cbn [fst snd] in *.
-    assert (Hr : fst r = 0) by (apply Hc; left; reflexivity).
-    destruct r as [c h]. cbn [fst] in Hr. subst c.
-    pose proof (add_event_high T e T1 h AE) as Hh.
-    destruct (add_event_accept vals T e T1 h AE) as (-> & PK & NL & CR & EW & FO).
-    (* Build *)
-    destruct (build_step cap lam vals Hvals K i T Dr B e HS PK CR EW NL FO ltac:(cbn [length] in Hctr; lia) ltac:(cbn [length] in HK; lia)) as [i1 [EB [HS1 Ct1]]].
-    (* Process *)
-    assert (Hff1 : few_forkers vals (mk_node nv T e :: T)) by (eapply few_forkers_sub; [exact Inc | exact Hff]).
-    destruct (process_step cap lam vals Hvals K i1 T Dr B e HS1 (Hf e (or_introl eq_refl)) PK NL CR EW FO Hff1)
-      as [bl [i2 [EP [HS2 Ct2]]]].
-    destruct (IH i2 (mk_node nv T e :: T) (e :: Dr) (B ++ map blk_obs bl) HS2) as [i' [B' [ER HS']]].
-    { rewrite AEs. cbn [snd]. intros r Hr. apply Hc. right. exact Hr. }
-    { intros e0 He0. apply Hf. right. exact He0. }
-    { rewrite AEs. exact Hff. }
-    { cbn [length] in Hctr. lia. }
-    { cbn [length] in HK. lia. }
-    rewrite AEs in ER, HS'. cbn [fst snd] in ER, HS'.
-    exists i', (map blk_obs bl ++ B'). split.
-    + change (abft_ops lam vals (e :: D)) with (OpB (ae e) :: OpP (ae e) :: abft_ops lam vals D).
-      cbn [run]. rewrite EB. cbn [run]. rewrite EP. cbn [render]. rewrite ER. rewrite Hh. reflexivity.
-    + cbn [rev]. rewrite <- !app_assoc. cbn [app]. rewrite <- app_assoc in HS'. exact HS'.
-Qed.
-
-(* ---------- the initial instance ---------- *)
-Lemma Sim_start : (0 < nv)%nat -> Sim (start 1 vals) [] [] [].
-Proof.
-  intros Hnv. unfold start. rewrite (proj1 Hvals).
-  constructor; cbn [i_st i_es i_proc genesis l_ctr l_ldf].
-  - constructor.
-  - exists (fun _ => False). split.
-    + constructor; cbn [genesis l_ldf l_el l_fcc].
-      * constructor; cbn [genesis l_vals l_epoch l_idx l_roots]; try reflexivity.
-        -- constructor.
-        -- apply vinv_init.
-        -- intros e [].
-        -- intros x [].
-        -- constructor.
-        -- intros r. split; [intros [] | intros [n [f [[] _]]]].
-      * intros a b r H. discriminate.
-      * apply EI_reset.
-      * unfold choose_atropos, el_reset. cbn [el_vals el_decided el_frame]. destruct vals as [|[x w] t]; [cbn in Hnv; lia | reflexivity].
-    + intros m g _ Hm. destruct Hm.
-  - intros e [].
-  - lia.
-  - intros id. reflexivity.
-  - constructor.
-  - intros b [].
 Qed.
 
 (* ---------- from the final simulation to the reference's block list ---------- *)
@@ -141,6 +79,73 @@ Proof.
   rewrite <- IH by (intros b Hb; apply H; right; exact Hb).
   pose proof (H _ (or_introl eq_refl)) as H0. cbn [fst snd] in H0 |- *. rewrite H0. reflexivity.
 Qed.
+
+Variable J : N -> Prop.
+Variable K : N.
+Hypothesis HJ : forall a, J a -> id_fresh K a.
+Notation Sim := (Sim ep lam vals J K).
+
+(* ---------- the run ---------- *)
+Lemma run_sim : forall D i T Dr B, Sim i T Dr B -> codes_ok (snd (add_events vals T D)) ->
+  (forall e, In e D -> id_fresh K (eid (fe e)) /\ ~ J (eid (fe e))) -> few_forkers vals (fst (add_events vals T D)) ->
+  l_ctr (i_st i) + N.of_nat (length D) < 2 ^ 192 -> l_ctr (i_st i) + N.of_nat (length D) <= K ->
+  exists i' B', render (run cap [] sample i (abft_ops ep lam vals D)) = (snd (add_events vals T D), B') /\
+    Sim i' (fst (add_events vals T D)) (rev D ++ Dr) (B ++ B').
+Proof.
+  induction D as [|e D IH]; intros i T Dr B HS Hc Hf Hff Hctr HK.
+  - exists i, []. cbn. rewrite app_nil_r. split; [reflexivity | exact HS].
+  - cbn [add_events] in *. destruct (add_event vals T e) as [T1 r] eqn:AE.
+    pose proof (add_events_incl D T1) as Inc.
+    destruct (add_events vals T1 D) as [T2 rs] eqn:AEs. cbn [fst snd] in *.
+    assert (Hr : fst r = 0) by (apply Hc; left; reflexivity).
+    destruct r as [c h]. cbn [fst] in Hr. subst c.
+    pose proof (add_event_high T e T1 h AE) as Hh.
+    destruct (add_event_accept vals T e T1 h AE) as (-> & PK & NL & CR & EW & FO).
+    (* Build *)
+    destruct (build_step cap ep lam vals Hvals J K HJ i T Dr B e HS PK CR EW NL FO ltac:(cbn [length] in Hctr; lia) ltac:(cbn [length] in HK; lia)) as [i1 [EB [HS1 Ct1]]].
+    (* Process *)
+    assert (Hff1 : few_forkers vals (mk_node nv T e :: T)) by (eapply few_forkers_sub; [exact Inc | exact Hff]).
+    destruct (process_step cap ep lam vals Hvals J K i1 T Dr B e HS1 (proj1 (Hf e (or_introl eq_refl))) (proj2 (Hf e (or_introl eq_refl))) PK NL CR EW FO Hff1)
+      as [bl [i2 [EP [HS2 Ct2]]]].
+    destruct (IH i2 (mk_node nv T e :: T) (e :: Dr) (B ++ map blk_obs bl) HS2) as [i' [B' [ER HS']]].
+    { rewrite AEs. cbn [snd]. intros r Hr. apply Hc. right. exact Hr. }
+    { intros e0 He0. apply Hf. right. exact He0. }
+    { rewrite AEs. exact Hff. }
+    { cbn [length] in Hctr. lia. }
+    { cbn [length] in HK. lia. }
+    rewrite AEs in ER, HS'. cbn [fst snd] in ER, HS'.
+    exists i', (map blk_obs bl ++ B'). split.
+    + change (abft_ops ep lam vals (e :: D)) with (OpB (ae e) :: OpP (ae e) :: abft_ops ep lam vals D).
+      cbn [run]. rewrite EB. cbn [run]. rewrite EP. cbn [render]. rewrite ER. rewrite Hh. reflexivity.
+    + cbn [rev]. rewrite <- !app_assoc. cbn [app]. rewrite <- app_assoc in HS'. exact HS'.
+Qed.
+
+(* ---------- the initial instance ---------- *)
+Lemma Sim_start : (0 < nv)%nat -> Sim (start ep vals) [] [] [].
+Proof.
+  intros Hnv. unfold start. rewrite (proj1 Hvals).
+  constructor; cbn [i_st i_es i_proc genesis l_ctr l_ldf].
+  - constructor.
+  - exists (fun _ => False). split.
+    + constructor; cbn [genesis l_ldf l_el l_fcc].
+      * constructor; cbn [genesis l_vals l_epoch l_idx l_roots]; try reflexivity.
+        -- constructor.
+        -- apply vinv_init.
+        -- intros e [].
+        -- intros x [].
+        -- constructor.
+        -- intros r. split; [intros [] | intros [n [f [[] _]]]].
+      * intros a b r H. discriminate.
+      * apply EI_reset.
+      * unfold choose_atropos, el_reset. cbn [el_vals el_decided el_frame]. destruct vals as [|[x w] t]; [cbn in Hnv; lia | reflexivity].
+    + intros m g _ Hm. destruct Hm.
+  - intros e [].
+  - lia.
+  - intros id. reflexivity.
+  - constructor.
+  - intros b [].
+Qed.
+
 End Run.
 
 (* ================= L1 ================= *)
@@ -155,7 +160,7 @@ Proof.
       destruct (add_event vals [] e0) as [T1 r] eqn:AE. destruct (add_events vals T1 D0) as [T2 rs].
       cbn [snd] in Hacc. assert (Hr : fst r = 0) by (apply Hacc; left; reflexivity). destruct r as [c h]. cbn in Hr. subst c.
       destruct (add_event_accept vals [] e0 T1 h AE) as (_ & _ & _ & CR & _). lia. }
-    destruct (run_sim cap lam vals Hvals (N.of_nat (length D)) D (start 1 vals) [] [] [] (Sim_start lam vals Hvals _ Hnv) Hacc Hfresh Hff) as [i' [B' [ER HS]]].
+    destruct (run_sim cap 1 lam vals Hvals (fun _ => False) (N.of_nat (length D)) (fun a (F : False) => match F with end) D (start 1 vals) [] [] [] (Sim_start 1 lam vals Hvals (fun _ => False) (N.of_nat (length D)) (fun a (F : False) => match F with end) Hnv) Hacc (fun e He => conj (Hfresh e He) (fun F => F)) Hff) as [i' [B' [ER HS]]].
     { cbn [start i_st genesis l_ctr]. lia. }
     { cbn [start i_st genesis l_ctr]. lia. }
     unfold abft_run. rewrite ER. unfold reference. unfold table in Hff.
@@ -165,7 +170,7 @@ Proof.
     unfold r_blocks, blocks_spec. symmetry.
     destruct (seg_bound vals T 0 (map fst B') _ SG) as [EL BD].
     apply (blocks_of_seg cap vals T (map fst B') 0 _ _ SG).
-    + apply (Done_undecided lam vals Hvals T (rev D ++ []) _ _ Hff W _ Dn).
+    + apply (Done_undecided 1 lam vals Hvals T (rev D ++ []) _ _ Hff W _ Dn).
     + destruct BD as [->|BD]; [cbn; lia | lia].
 Qed.
 
